@@ -413,10 +413,19 @@ def r_concat_offsets(c):
     from pta.pat import find
     fd = m.resolve_method(TOIL, "map_concatenate")[1]
     where = m.loc(m.module_of(fd), fd)
-    pairs = find(fd, "$lb, $ub = $L[$i], $U[$i]")
-    if len(pairs) != 1:
-        raise AnalysisError("anchor vanished: (lower, upper) bound lookup in map_concatenate")
-    L, U = pairs[0]["$L"], pairs[0]["$U"]
+    # subscript helper inlined, (lbound, ubound) lookups propagated; the lists keep
+    # their names
+    fd = m.expand_locals(m.inlined(fd), only="subscripts")
+    # U: what the output index is compared with; L: what is subtracted from it
+    ups = {e["$U"] for e in find(fd, "Comparison($$x, '<', $U[$i])")} \
+        | {e["$U"] for e in find(fd, "prim.Comparison($$x, '<', $U[$i])")}
+    lows = {e["$L"] for e in find(fd, "prim.Variable($$n) - $L[$i]")} \
+        | {e["$L"] for e in find(fd, "Variable($$n) - $L[$i]")}
+    if len(ups) != 1 or len(lows) != 1:
+        raise AnalysisError("anchor vanished: in map_concatenate, the list the output index "
+                            "is compared with (`<`) and the list of offsets subtracted from "
+                            f"it (found {sorted(ups)} / {sorted(lows)})")
+    L, U = lows.pop(), ups.pop()
     feeds = []
     for x in ast.walk(fd):
         if isinstance(x, (ast.Assign, ast.AnnAssign)) and x.value is not None:
@@ -437,9 +446,12 @@ def r_concat_offsets(c):
             f"the subscript offsets `{L}` are filled with `{m.frag(bad[0], 50) if bad else None}`, "
             f"which is not taken from the upper bounds `{U}`: the offset of the third and "
             "later operands is the length of ONE earlier operand instead of all of them")
-    # ... and the upper bounds accumulate
-    acc = find(fd, f"{U}.append({U}[$i - 1] + $a.shape[$e.axis])") \
-        + find(fd, f"{U} = list(accumulate($$lens))")
+    # ... and the upper bounds accumulate: previous upper bound + this operand's length
+    acc = []
+    for prev in (f"{U}[$i - 1]", f"{U}[-1]"):
+        acc += find(fd, f"{U}.append({prev} + $a.shape[$$ax])") \
+            + find(fd, f"{U}.append($a.shape[$$ax] + {prev})")
+    acc += find(fd, f"{U} = list(accumulate($$lens))")
     c.check(len(acc) == 1, "R02-BIND", "ToIndexLambdaMixin.map_concatenate",
             "upper-bounds-accumulate", where,
             f"the upper bounds `{U}` are not a running sum of the operands' lengths")
